@@ -65,8 +65,6 @@ OPERAND_MUTATION_REFERENCE: Dict[Tuple[str, str], str] = {
     ("vtlengine.Operators.Join.Apply.create_dataset", "§.name = §.name[len(prefix):] if"): "apply strips alias prefixes on the join temporary",
     ("vtlengine.Operators.Numeric.Random.validate", "index.data_type = binary_implicit_promotion(index.data_type, Integer)"): "random promotes its index scalar in place (constant operand)",
     ("vtlengine.Operators.RoleSetter.RoleSetter.validate", "operand.role = cls.role"): "role setters act on the calc temporary",
-    ("vtlengine.Operators.Set.Set.validate", "§[§].data_type = binary_implicit_promotion("): "set operators promote the first operand's components in place (reference behaviour)",
-    ("vtlengine.Operators.Set.Set.validate", "§[§].nullable = §.nullable or §.nullable"): "set operators widen nullability of the first operand's components in place (reference behaviour)",
     ("vtlengine.Operators.Validation.Check.validate", "§['imbalance'].name = 'imbalance'"): "check renames the imbalance component of its temporary operand",
     ("vtlengine.Operators.Conditional.If.validate", "§.data_type = binary_implicit_promotion(§.data_type, §.data_type)"): "if-then-else promotes then-branch measures against a scalar else-branch in place (per-statement temporaries)",
     ("vtlengine.Model.Dataset.delete_component", "self.components.pop(component_name, None)"): "aggr clause / check_hierarchy drop a component of their working dataset (reference behaviour)",
